@@ -7,6 +7,7 @@ mod c02;
 mod c07;
 mod daywalk;
 mod c03;
+mod c06;
 mod c10;
 mod queries;
 
@@ -62,6 +63,7 @@ fn main() {
     "C01" => c01::run(&ctx),
     "C02" => c02::run(&ctx),
     "C03" => c03::run(&ctx),
+    "C06" => c06::run(&ctx),
     "C07" => c07::run(&ctx),
     "C10" => c10::run(&ctx),
     _ => {
